@@ -26,6 +26,7 @@ type laneSpec struct {
 	e             *IsaEntry
 	entry         *State
 	accFull       map[string]Term // VCCBIT / SDSTBIT: prescribed 64-lane mask
+	accExit       map[string]func() Term // the handler's accumulator for a mask key, read after the loop
 	done          bool
 	skb           Term
 	skL, skK      Term
@@ -176,9 +177,16 @@ func (ls *laneSpec) full(key string) Term {
 	}
 	c := ls.ev.c
 	acc := BVLitI(0, 64)
+	var code Term
+	if get, ok := ls.accExit[key]; ok && len(ls.laneWhen) > 0 {
+		code = get() // lanes of a recorded input class keep whatever bit the handler produced
+	}
 	for l := int64(0); l < 64; l++ {
 		lane := BVLitI(l, 64)
 		b := Ite(ls.active(lane), BVShl(ls.bit(key, lane), lane), BVLitI(0, 64))
+		if code.S != "" {
+			b = Ite(ls.exempt(lane), BVAnd(code, BVShl(BVLitI(1, 64), lane)), b)
+		}
 		acc = c.Def("accfull", BVOr(acc, b))
 	}
 	ls.accFull[key] = acc
@@ -300,12 +308,17 @@ func (f *Frame) laneCandidates(ls *laneSpec, L *Loop, iphi *ssa.Phi, initVals ma
 		a, g := same(func(st *State, pv map[*ssa.Phi]*Val) Term { return Eq(pv[ph].T, iv.T) })
 		cs = append(cs, laneCand{name: "phi." + ph.Comment + ".keep", assume: a, goal: g})
 		if w, _, isInt := intInfo(ph.Type()); isInt && w == 64 {
-			for _, key := range []string{"VCCBIT", "SDSTBIT"} {
+			for _, key := range []string{"VCCBIT", "SDSTBIT", "MDSTBIT"} {
 				if ls.e.Eff[key] == nil {
 					continue
 				}
 				kk := key
 				skB := ls.skBit(c)
+				if ls.accExit == nil {
+					ls.accExit = map[string]func() Term{}
+				}
+				accPhi := ph
+				ls.accExit[kk] = func() Term { return f.env[accPhi].T }
 				// bit l of the accumulator is the prescribed bit for lanes < i and the initial bit otherwise
 				inst := func(pv map[*ssa.Phi]*Val, l Term) Term {
 					i := iTerm(pv)
@@ -317,7 +330,17 @@ func (f *Frame) laneCandidates(ls *laneSpec, L *Loop, iphi *ssa.Phi, initVals ma
 				// Step obligation in the form of the hypotheses of lemma `bitacc` (proved once, see
 				// bitAccLemma): the iteration changes at most bit i, and bit i becomes the prescribed bit.
 				cs = append(cs, laneCand{name: "phi." + ph.Comment + "." + key,
-					assume: func(st *State, pv map[*ssa.Phi]*Val) Term { return And(inst(pv, skB), inst(pv, iTerm(pv))) },
+					assume: func(st *State, pv map[*ssa.Phi]*Val) Term {
+						ts := []Term{inst(pv, skB), inst(pv, iTerm(pv))}
+						if kk != "VCCBIT" {
+							// the mask is written to a scalar register pair as a whole word after the loop:
+							// the (universally valid) clause is instantiated at every bit position
+							for l := int64(0); l < 64; l++ {
+								ts = append(ts, inst(pv, BVLitI(l, 64)))
+							}
+						}
+						return And(ts...)
+					},
 					goal:   func(st *State, pv map[*ssa.Phi]*Val) Term { return inst(pv, skB) },
 					step: func(hs, bs *State, head, next map[*ssa.Phi]*Val) Term {
 						i := iTerm(head)
